@@ -328,17 +328,19 @@ class InfiniteAtmosphericLayer(AtmosphericLayer):
         # Measure the sub-pixel shift
         sub_delta = self.center - new_pixel_center * self.input_grid.delta
 
+        # The screen moves along with the wind: phase(x, t + dt) = phase(x - velocity * dt, t).
+        # For a positive velocity, the new column/row enters at the left/bottom.
         for i in range(abs(delta[0])):
             if delta[0] < 0:
-                self._extrude('left')
-            else:
                 self._extrude('right')
+            else:
+                self._extrude('left')
 
         for i in range(abs(delta[1])):
             if delta[1] < 0:
-                self._extrude('bottom')
-            else:
                 self._extrude('top')
+            else:
+                self._extrude('bottom')
 
         if self.use_interpolation:
             # Use bilinear interpolation to interpolate the achromatic phase screen to the correct position.
@@ -351,7 +353,7 @@ class InfiniteAtmosphericLayer(AtmosphericLayer):
                 warnings.filterwarnings('ignore', message='The behaviour of affine_transform')
                 warnings.filterwarnings('ignore', message='The behavior of affine_transform')
 
-                screen = affine_transform(ps, np.array([1, 1]), (sub_delta / self.input_grid.delta)[::-1], mode='nearest', order=5)
+                screen = affine_transform(ps, np.array([1, 1]), (-sub_delta / self.input_grid.delta)[::-1], mode='nearest', order=5)
                 self._shifted_achromatic_screen = Field(screen.ravel(), self._achromatic_screen.grid)
         else:
             self._shifted_achromatic_screen = self._achromatic_screen
